@@ -1,12 +1,14 @@
 //! C07 - context binding and C08 - sender authentication (DESIGN.md section 2, C07/C08).
 //! Disequalities need an INJECTIVE hash: `InternHash` (symbolic model: equal digests <=> equal
 //! messages).  For SHA-2 the corresponding assumption is collision resistance.
+//! The hkdf crate is replaced by the stub layer of fasthkdf.rs whose InternHash instantiation models
+//! HMAC itself as an injective function of (key, message) (un-stubbed: 16 GB and no result in 34 min).
 use crate::models::*;
 use crate::util::*;
 use hpke::aead::{Aead, AeadCtxR, AeadCtxS, AeadTag};
 use hpke::kdf::Kdf;
 use hpke::kem::{Kem as KemTrait, ToyKemInt, ToyKemIntB};
-use hpke::verif_model::{intern_overflowed, InternKdf, InternKdfB, XorPrivateKey, XorPublicKey};
+use hpke::verif_model::{InternKdf, InternKdfB, XorPrivateKey, XorPublicKey};
 use hpke::{setup_receiver, setup_sender, Deserializable, HpkeError, OpModeR, OpModeS, PskBundle, Serializable};
 
 type M = ToyKemInt;
@@ -35,7 +37,7 @@ pub fn assert_disjoint(a: &Secrets, b: &Secrets) {
     assert!(a.key != b.key, "AEAD keys coincide");
     assert!(a.nonce != b.nonce, "base nonces coincide");
     assert!(a.exp != b.exp, "exporter secrets coincide");
-    assert!(!intern_overflowed(), "interning table too small for this harness");
+    assert!(!crate::fasthkdf::intern_hmac_overflowed(), "interning table too small for this harness");
 }
 pub fn enc_of<MM: KemTrait>(e: u16) -> MM::EncappedKey {
     <MM::EncappedKey as Deserializable>::from_bytes(&e.to_be_bytes()).unwrap()
@@ -50,10 +52,15 @@ fn assert_cannot_open<A: Aead<AeadImpl = IdealImpl<4>>, KK: Kdf, MM: KemTrait>(s
 
 const N: usize = 2;
 
-//@h name=c07_info tier=quick mode=func timeout=3000 desc="receiver setups that differ ONLY in the info string (any two different strings: flipped bit, appended zero byte, prefix, empty vs non-empty) share no key material: AEAD key, base nonce and exporter secret all differ" bounds="all skR, enc; info, info' 0..=2 B symbolic with info != info'; Base mode; model suite DHKEM(XorDh,InternKdf)/InternKdf/IdealAead with an injective hash; unwind 100"
+//@h name=c07_info tier=quick mode=func slots=2 timeout=3000 desc="receiver setups that differ ONLY in the info string (any two different strings: flipped bit, appended zero byte, prefix, empty vs non-empty) share no key material: AEAD key, base nonce and exporter secret all differ" bounds="all skR, enc; info, info' 0..=2 B symbolic with info != info'; Base mode; model suite DHKEM(XorDh,InternKdf)/InternKdf/IdealAead with an injective hash; unwind 70"
 #[kani::proof]
-#[kani::unwind(100)]
+#[kani::unwind(70)]
 #[kani::stub(zeroize::optimization_barrier, noop_barrier)]
+#[kani::stub(hkdf::HkdfExtract::new, crate::fasthkdf::stub_extract_new)]
+#[kani::stub(hkdf::HkdfExtract::input_ikm, crate::fasthkdf::stub_input_ikm)]
+#[kani::stub(hkdf::HkdfExtract::finalize, crate::fasthkdf::stub_finalize)]
+#[kani::stub(hkdf::Hkdf::from_prk, crate::fasthkdf::stub_from_prk)]
+#[kani::stub(hkdf::Hkdf::expand_multi_info, crate::fasthkdf::stub_expand_multi_info)]
 pub fn c07_info() {
     let sk_r: u16 = kani::any();
     let enc: u16 = kani::any();
@@ -71,10 +78,15 @@ pub fn c07_info() {
     kani::cover!(l1 == 0 && l2 == 1, "empty vs non-empty");
 }
 
-//@h name=c07_psk tier=quick mode=func timeout=3000 desc="Psk-mode receiver setups that differ only in the PSK (same identifier) share no key material" bounds="all skR, enc; psk, psk' 1..=2 B symbolic, different; psk_id 1 B; unwind 100"
+//@h name=c07_psk tier=quick mode=func slots=2 timeout=3000 desc="Psk-mode receiver setups that differ only in the PSK (same identifier) share no key material" bounds="all skR, enc; psk, psk' 1..=2 B symbolic, different; psk_id 1 B; unwind 70"
 #[kani::proof]
-#[kani::unwind(100)]
+#[kani::unwind(70)]
 #[kani::stub(zeroize::optimization_barrier, noop_barrier)]
+#[kani::stub(hkdf::HkdfExtract::new, crate::fasthkdf::stub_extract_new)]
+#[kani::stub(hkdf::HkdfExtract::input_ikm, crate::fasthkdf::stub_input_ikm)]
+#[kani::stub(hkdf::HkdfExtract::finalize, crate::fasthkdf::stub_finalize)]
+#[kani::stub(hkdf::Hkdf::from_prk, crate::fasthkdf::stub_from_prk)]
+#[kani::stub(hkdf::Hkdf::expand_multi_info, crate::fasthkdf::stub_expand_multi_info)]
 pub fn c07_psk() {
     let sk_r: u16 = kani::any();
     let enc: u16 = kani::any();
@@ -94,10 +106,15 @@ pub fn c07_psk() {
     }
 }
 
-//@h name=c07_psk_id_and_boundary tier=quick mode=func timeout=3000 desc="Psk-mode receiver setups that differ in the PSK identifier, including the boundary shift (info||x, psk_id) vs (info, x||psk_id) where the concatenation of the two fields is identical, share no key material" bounds="all skR, enc; (info, psk_id) and (info', psk_id') each 0..=2 / 1..=2 B symbolic with psk_id != psk_id'; psk 1 B; unwind 100"
+//@h name=c07_psk_id_and_boundary tier=quick mode=func slots=2 timeout=3000 desc="Psk-mode receiver setups that differ in the PSK identifier, including the boundary shift (info||x, psk_id) vs (info, x||psk_id) where the concatenation of the two fields is identical, share no key material" bounds="all skR, enc; (info, psk_id) and (info', psk_id') each 0..=2 / 1..=2 B symbolic with psk_id != psk_id'; psk 1 B; unwind 70"
 #[kani::proof]
-#[kani::unwind(100)]
+#[kani::unwind(70)]
 #[kani::stub(zeroize::optimization_barrier, noop_barrier)]
+#[kani::stub(hkdf::HkdfExtract::new, crate::fasthkdf::stub_extract_new)]
+#[kani::stub(hkdf::HkdfExtract::input_ikm, crate::fasthkdf::stub_input_ikm)]
+#[kani::stub(hkdf::HkdfExtract::finalize, crate::fasthkdf::stub_finalize)]
+#[kani::stub(hkdf::Hkdf::from_prk, crate::fasthkdf::stub_from_prk)]
+#[kani::stub(hkdf::Hkdf::expand_multi_info, crate::fasthkdf::stub_expand_multi_info)]
 pub fn c07_psk_id_and_boundary() {
     let sk_r: u16 = kani::any();
     let enc: u16 = kani::any();
@@ -123,10 +140,15 @@ pub fn c07_psk_id_and_boundary() {
     kani::cover!(il1 == 1 && dl1 == 1 && il2 == 0 && dl2 == 2 && d2[0] == i1[0] && d2[1] == d1[0], "boundary shift");
 }
 
-//@h name=c07_mode_base_vs_empty_psk tier=quick mode=func timeout=3000 desc="mode binding: a Base-mode sender and a Psk-mode receiver holding the EMPTY bundle (identical psk data: empty/absent) share no key material, and the receiver rejects the sender's first ciphertext; likewise the receiver's Base vs Psk(empty) contexts differ" bounds="all RNG outputs, skR; info 0..=1 B; sender through setup_sender (OpModeS), receiver through setup_receiver (OpModeR); unwind 100"
+//@h name=c07_mode_base_vs_empty_psk tier=quick mode=func slots=2 timeout=3000 desc="mode binding: a Base-mode sender and a Psk-mode receiver holding the EMPTY bundle (identical psk data: empty/absent) share no key material, and the receiver rejects the sender's first ciphertext; likewise the receiver's Base vs Psk(empty) contexts differ" bounds="all RNG outputs, skR; info 0..=1 B; sender through setup_sender (OpModeS), receiver through setup_receiver (OpModeR); unwind 70"
 #[kani::proof]
-#[kani::unwind(100)]
+#[kani::unwind(70)]
 #[kani::stub(zeroize::optimization_barrier, noop_barrier)]
+#[kani::stub(hkdf::HkdfExtract::new, crate::fasthkdf::stub_extract_new)]
+#[kani::stub(hkdf::HkdfExtract::input_ikm, crate::fasthkdf::stub_input_ikm)]
+#[kani::stub(hkdf::HkdfExtract::finalize, crate::fasthkdf::stub_finalize)]
+#[kani::stub(hkdf::Hkdf::from_prk, crate::fasthkdf::stub_from_prk)]
+#[kani::stub(hkdf::Hkdf::expand_multi_info, crate::fasthkdf::stub_expand_multi_info)]
 pub fn c07_mode_base_vs_empty_psk() {
     let bytes: [u8; RNG_CAP] = kani::any();
     let mut rng = ScriptRng::new(bytes);
@@ -147,10 +169,15 @@ pub fn c07_mode_base_vs_empty_psk() {
     }
 }
 
-//@h name=c07_mode_authpsk_empty_vs_auth tier=thorough mode=func timeout=3000 desc="mode binding: AuthPsk sender with the empty bundle vs Auth receiver (identical PSK data, same sender key) share no key material" bounds="all RNG outputs, skR, skS; unwind 100"
+//@h name=c07_mode_authpsk_empty_vs_auth tier=thorough mode=func slots=2 timeout=3000 desc="mode binding: AuthPsk sender with the empty bundle vs Auth receiver (identical PSK data, same sender key) share no key material" bounds="all RNG outputs, skR, skS; unwind 70"
 #[kani::proof]
-#[kani::unwind(100)]
+#[kani::unwind(70)]
 #[kani::stub(zeroize::optimization_barrier, noop_barrier)]
+#[kani::stub(hkdf::HkdfExtract::new, crate::fasthkdf::stub_extract_new)]
+#[kani::stub(hkdf::HkdfExtract::input_ikm, crate::fasthkdf::stub_input_ikm)]
+#[kani::stub(hkdf::HkdfExtract::finalize, crate::fasthkdf::stub_finalize)]
+#[kani::stub(hkdf::Hkdf::from_prk, crate::fasthkdf::stub_from_prk)]
+#[kani::stub(hkdf::Hkdf::expand_multi_info, crate::fasthkdf::stub_expand_multi_info)]
 pub fn c07_mode_authpsk_empty_vs_auth() {
     let bytes: [u8; RNG_CAP] = kani::any();
     let mut rng = ScriptRng::new(bytes);
@@ -169,10 +196,15 @@ pub fn c07_mode_authpsk_empty_vs_auth() {
     }
 }
 
-//@h name=c07_recipient_key_and_enc tier=quick mode=func timeout=3000 desc="receiver setups that differ only in the recipient private key, or only in the encapsulated key, share no key material (kem_context and DH value both change)" bounds="all (skR, enc) != (skR', enc') with exactly one component different; Base mode; unwind 100"
+//@h name=c07_recipient_key_and_enc tier=quick mode=func slots=2 timeout=3000 desc="receiver setups that differ only in the recipient private key, or only in the encapsulated key, share no key material (kem_context and DH value both change)" bounds="all (skR, enc) != (skR', enc') with exactly one component different; Base mode; unwind 70"
 #[kani::proof]
-#[kani::unwind(100)]
+#[kani::unwind(70)]
 #[kani::stub(zeroize::optimization_barrier, noop_barrier)]
+#[kani::stub(hkdf::HkdfExtract::new, crate::fasthkdf::stub_extract_new)]
+#[kani::stub(hkdf::HkdfExtract::input_ikm, crate::fasthkdf::stub_input_ikm)]
+#[kani::stub(hkdf::HkdfExtract::finalize, crate::fasthkdf::stub_finalize)]
+#[kani::stub(hkdf::Hkdf::from_prk, crate::fasthkdf::stub_from_prk)]
+#[kani::stub(hkdf::Hkdf::expand_multi_info, crate::fasthkdf::stub_expand_multi_info)]
 pub fn c07_recipient_key_and_enc() {
     let sk1: u16 = kani::any();
     let e1: u16 = kani::any();
@@ -191,8 +223,13 @@ pub fn c07_recipient_key_and_enc() {
 macro_rules! suite_id_harness {
     ($name:ident, $a1:ty, $k1:ty, $m1:ty, $a2:ty, $k2:ty, $m2:ty) => {
         #[kani::proof]
-        #[kani::unwind(100)]
+        #[kani::unwind(70)]
         #[kani::stub(zeroize::optimization_barrier, noop_barrier)]
+        #[kani::stub(hkdf::HkdfExtract::new, crate::fasthkdf::stub_extract_new)]
+        #[kani::stub(hkdf::HkdfExtract::input_ikm, crate::fasthkdf::stub_input_ikm)]
+        #[kani::stub(hkdf::HkdfExtract::finalize, crate::fasthkdf::stub_finalize)]
+        #[kani::stub(hkdf::Hkdf::from_prk, crate::fasthkdf::stub_from_prk)]
+        #[kani::stub(hkdf::Hkdf::expand_multi_info, crate::fasthkdf::stub_expand_multi_info)]
         pub fn $name() {
             let sk_r: u16 = kani::any();
             let enc: u16 = kani::any();
@@ -206,11 +243,11 @@ macro_rules! suite_id_harness {
         }
     };
 }
-//@h name=c07_aead_id tier=quick mode=func timeout=3000 desc="two suites that differ only in the AEAD identifier (same key, nonce and tag sizes - the AES-256-GCM vs ChaCha20Poly1305 situation) derive disjoint key material from the same inputs" bounds="all skR, enc; info 0..=1 B; unwind 100"
+//@h name=c07_aead_id tier=quick mode=func slots=2 timeout=3000 desc="two suites that differ only in the AEAD identifier (same key, nonce and tag sizes - the AES-256-GCM vs ChaCha20Poly1305 situation) derive disjoint key material from the same inputs" bounds="all skR, enc; info 0..=1 B; unwind 70"
 suite_id_harness!(c07_aead_id, IdealAead, K, M, IdealAeadB, K, M);
-//@h name=c07_kdf_id tier=thorough mode=func timeout=3000 desc="two suites that differ only in the KDF identifier (same hash) derive disjoint key material" bounds="all skR, enc; info 0..=1 B; unwind 100"
+//@h name=c07_kdf_id tier=thorough mode=func slots=2 timeout=3000 desc="two suites that differ only in the KDF identifier (same hash) derive disjoint key material" bounds="all skR, enc; info 0..=1 B; unwind 70"
 suite_id_harness!(c07_kdf_id, IdealAead, InternKdf, M, IdealAead, InternKdfB, M);
-//@h name=c07_kem_id tier=thorough mode=func timeout=3000 desc="two suites that differ only in the KEM identifier (same group and KDF) derive disjoint key material" bounds="all skR, enc; info 0..=1 B; unwind 100"
+//@h name=c07_kem_id tier=thorough mode=func slots=2 timeout=3000 desc="two suites that differ only in the KEM identifier (same group and KDF) derive disjoint key material" bounds="all skR, enc; info 0..=1 B; unwind 70"
 suite_id_harness!(c07_kem_id, IdealAead, K, ToyKemInt, IdealAead, K, ToyKemIntB);
 
 // ------------------------------------------------------------------------------------------------
@@ -220,8 +257,13 @@ suite_id_harness!(c07_kem_id, IdealAead, K, ToyKemInt, IdealAead, K, ToyKemIntB)
 macro_rules! auth_harness {
     ($name:ident, $kind:expr) => {
         #[kani::proof]
-        #[kani::unwind(100)]
+        #[kani::unwind(70)]
         #[kani::stub(zeroize::optimization_barrier, noop_barrier)]
+        #[kani::stub(hkdf::HkdfExtract::new, crate::fasthkdf::stub_extract_new)]
+        #[kani::stub(hkdf::HkdfExtract::input_ikm, crate::fasthkdf::stub_input_ikm)]
+        #[kani::stub(hkdf::HkdfExtract::finalize, crate::fasthkdf::stub_finalize)]
+        #[kani::stub(hkdf::Hkdf::from_prk, crate::fasthkdf::stub_from_prk)]
+        #[kani::stub(hkdf::Hkdf::expand_multi_info, crate::fasthkdf::stub_expand_multi_info)]
         pub fn $name() {
             const KIND: u8 = $kind;
             let bytes: [u8; RNG_CAP] = kani::any();
@@ -251,17 +293,22 @@ macro_rules! auth_harness {
         }
     };
 }
-//@h name=c08_other_keypair tier=quick mode=func prop=C08 timeout=3000 desc="Auth mode: a sender using any OTHER identity key pair than the one the receiver expects shares no key material with the receiver; its first ciphertext is rejected" bounds="all RNG outputs, skR, skS, impostor skX != skS; model suite with injective hash; unwind 100"
+//@h name=c08_other_keypair tier=quick mode=func slots=2 prop=C08 timeout=3000 desc="Auth mode: a sender using any OTHER identity key pair than the one the receiver expects shares no key material with the receiver; its first ciphertext is rejected" bounds="all RNG outputs, skR, skS, impostor skX != skS; model suite with injective hash; unwind 70"
 auth_harness!(c08_other_keypair, 0);
-//@h name=c08_public_half_only tier=quick mode=func prop=C08 timeout=3000 desc="Auth mode: a sender that knows only the PUBLIC half pkS and pairs it with a private key that does not belong to it shares no key material with the receiver expecting pkS (possession of skS is what authenticates)" bounds="all RNG outputs, skR, skS, skX != skS; unwind 100"
+//@h name=c08_public_half_only tier=quick mode=func slots=2 prop=C08 timeout=3000 desc="Auth mode: a sender that knows only the PUBLIC half pkS and pairs it with a private key that does not belong to it shares no key material with the receiver expecting pkS (possession of skS is what authenticates)" bounds="all RNG outputs, skR, skS, skX != skS; unwind 70"
 auth_harness!(c08_public_half_only, 1);
-//@h name=c08_unauthenticated_sender tier=quick mode=func prop=C08 timeout=3000 desc="a Base-mode sender against an Auth-mode receiver shares no key material" bounds="all RNG outputs, skR, skS; unwind 100"
+//@h name=c08_unauthenticated_sender tier=quick mode=func slots=2 prop=C08 timeout=3000 desc="a Base-mode sender against an Auth-mode receiver shares no key material" bounds="all RNG outputs, skR, skS; unwind 70"
 auth_harness!(c08_unauthenticated_sender, 2);
 
-//@h name=c08_psk_possession tier=quick mode=func prop=C08 timeout=3000 desc="AuthPsk mode with the right sender key but a different PSK (same identifier): no shared key material, ciphertext rejected" bounds="all RNG outputs, skR, skS; psk != psk' 1..=2 B; unwind 100"
+//@h name=c08_psk_possession tier=quick mode=func slots=2 prop=C08 timeout=3000 desc="AuthPsk mode with the right sender key but a different PSK (same identifier): no shared key material, ciphertext rejected" bounds="all RNG outputs, skR, skS; psk != psk' 1..=2 B; unwind 70"
 #[kani::proof]
-#[kani::unwind(100)]
+#[kani::unwind(70)]
 #[kani::stub(zeroize::optimization_barrier, noop_barrier)]
+#[kani::stub(hkdf::HkdfExtract::new, crate::fasthkdf::stub_extract_new)]
+#[kani::stub(hkdf::HkdfExtract::input_ikm, crate::fasthkdf::stub_input_ikm)]
+#[kani::stub(hkdf::HkdfExtract::finalize, crate::fasthkdf::stub_finalize)]
+#[kani::stub(hkdf::Hkdf::from_prk, crate::fasthkdf::stub_from_prk)]
+#[kani::stub(hkdf::Hkdf::expand_multi_info, crate::fasthkdf::stub_expand_multi_info)]
 pub fn c08_psk_possession() {
     let bytes: [u8; RNG_CAP] = kani::any();
     let mut rng = ScriptRng::new(bytes);
@@ -288,10 +335,15 @@ pub fn c08_psk_possession() {
     }
 }
 
-//@h name=c08_honest_sender_accepted tier=quick mode=func prop=C08 timeout=3000 desc="positive twin: the holder of skS IS accepted in Auth mode (same key material on both sides, first ciphertext opens) - shows the negative harnesses are not vacuous" bounds="all RNG outputs, skR, skS; unwind 100"
+//@h name=c08_honest_sender_accepted tier=quick mode=func slots=2 prop=C08 timeout=3000 desc="positive twin: the holder of skS IS accepted in Auth mode (same key material on both sides, first ciphertext opens) - shows the negative harnesses are not vacuous" bounds="all RNG outputs, skR, skS; unwind 70"
 #[kani::proof]
-#[kani::unwind(100)]
+#[kani::unwind(70)]
 #[kani::stub(zeroize::optimization_barrier, noop_barrier)]
+#[kani::stub(hkdf::HkdfExtract::new, crate::fasthkdf::stub_extract_new)]
+#[kani::stub(hkdf::HkdfExtract::input_ikm, crate::fasthkdf::stub_input_ikm)]
+#[kani::stub(hkdf::HkdfExtract::finalize, crate::fasthkdf::stub_finalize)]
+#[kani::stub(hkdf::Hkdf::from_prk, crate::fasthkdf::stub_from_prk)]
+#[kani::stub(hkdf::Hkdf::expand_multi_info, crate::fasthkdf::stub_expand_multi_info)]
 pub fn c08_honest_sender_accepted() {
     let bytes: [u8; RNG_CAP] = kani::any();
     let mut rng = ScriptRng::new(bytes);
